@@ -724,6 +724,33 @@ fn structural_wide(seed: u64) -> serde_json::Value {
     json!({"found": false, "routine": "structural_wide", "tried": tried})
 }
 
+// C01 (known finding): ApplyPermutation / ApplyInversePermutation with a permutation owned by a party: the compiler accepts the graph,
+// shares the permutation additively and hands the shares to ApplyPermutationMPC, which reads them as a composition p0*p1*p2
+fn private_permutation() -> serde_json::Value {
+    use ciphercore_base::graphs::util::simple_context;
+    use ciphercore_base::mpc::mpc_compiler::IOStatus;
+    let mut tried = 0;
+    for inverse in [false, true] {
+        for (o0, o1) in [(IOStatus::Party(0), IOStatus::Party(1)), (IOStatus::Public, IOStatus::Party(1)), (IOStatus::Party(2), IOStatus::Party(2))] {
+            tried += 1;
+            let c = simple_context(|g| { let x = g.input(array_type(vec![4], INT32))?; let p = g.input(array_type(vec![4], UINT64))?; if inverse { x.apply_inverse_permutation(p) } else { x.apply_permutation(p) } }).unwrap();
+            let (_keep, g) = match compile_simple(&c, vec![o0.clone(), o1.clone()], vec![IOStatus::Party(0)]) { Ok(x) => x, Err(_) => continue };   // rejected at compile time: fine
+            let x = Value::from_flattened_array(&[10u64, 20, 30, 40], INT32).unwrap();
+            let p = Value::from_flattened_array(&[1u64, 2, 3, 0], UINT64).unwrap();
+            let want = random_evaluate(c.get_main_graph().unwrap(), vec![x.clone(), p.clone()]).unwrap().to_flattened_array_u64(array_type(vec![4], INT32)).unwrap();
+            let got = catch_unwind(AssertUnwindSafe(|| random_evaluate(g.clone(), vec![x.clone(), p.clone()]).and_then(|v| v.to_flattened_array_u64(array_type(vec![4], INT32)))));
+            let bad = match &got { Ok(Ok(v)) => *v != want, _ => true };
+            if bad {
+                return json!({"found": true, "routine": "private_permutation", "property": "C01",
+                    "input": {"graph": if inverse { "apply_inverse_permutation(x: i32[4], p: u64[4])" } else { "apply_permutation(x: i32[4], p: u64[4])" }, "owners": format!("[{:?}, {:?}]", o0, o1), "output_parties": [0], "x": [10, 20, 30, 40], "p": [1, 2, 3, 0]},
+                    "expected": want, "observed": match got { Ok(Ok(v)) => json!(v), Ok(Err(e)) => json!(format!("runtime error: {}", e)), Err(_) => json!("panic") },
+                    "what": "graph accepted by prepare_for_mpc_evaluation; compiled graph evaluated with SimpleEvaluator vs. the source graph"});
+            }
+        }
+    }
+    json!({"found": false, "routine": "private_permutation", "tried": tried})
+}
+
 // C14: per-party shares reconstruct the secret, for scalars, arrays (incl. bits and 128-bit) and nested containers
 fn share_roundtrip(seed: u64) -> serde_json::Value {
     use ciphercore_base::random::PRNG;
@@ -777,6 +804,7 @@ fn main() {
         Some("arith_kernels") => arith_kernels(seed),
         Some("cmp_small_widths") => cmp_small_widths(seed),
         Some("share_roundtrip") => share_roundtrip(seed),
+        Some("private_permutation") => private_permutation(),
         Some("structural_wide") => structural_wide(seed),
         Some("truncate_compiled") => truncate_compiled(seed),
         Some("prf_purity") => prf_purity(seed),
